@@ -331,7 +331,7 @@ class ModelBase:
                     return const(int(cval(a0)) if name == 'int' else float(cval(a0)))
                 except Exception:
                     pass
-            keep = a0.only('mono', 'geo', 'idx', 'axis', 'sym', 'deps', 'taint')
+            keep = a0.only('mono', 'geo', 'idx', 'axis', 'sym', 'deps', 'taint', 'mono_unknown')
             return keep.w(ty=name, cast=name)
         if name == 'str':
             if a0 is not None and a0.ty == 'str':
